@@ -55,6 +55,8 @@ pub struct Shape {
     pub flush: bool,
     pub vacuum: bool,
     pub cache: usize,
+    /// statements of open sessions are spread between the other steps (checkpoints and autocommit statements happen while transactions are open)
+    pub interleave: bool,
 }
 
 fn payload(r: &mut Rng, sizes: &[usize]) -> String {
@@ -69,8 +71,22 @@ pub fn gen_history(r: &mut Rng, sh: &Shape) -> Vec<Act> {
     let mut live: Vec<i64> = vec![]; // committed ids (model's view while generating)
     let mut sid = 0usize;
     let mut i = 0;
+    // interleave mode: acts of open sessions waiting to be issued (front = next)
+    let mut open: Vec<(Vec<Act>, Vec<i64>, bool)> = vec![];
     while i < sh.steps {
         i += 1;
+        if sh.interleave && !open.is_empty() && r.chance(1, 2) {
+            let j = r.usize(open.len());
+            let a = open[j].0.remove(0);
+            acts.push(a);
+            if open[j].0.is_empty() {
+                let (_, ids, committed) = open.remove(j);
+                if committed {
+                    live.extend(ids);
+                }
+            }
+            continue;
+        }
         let k = r.below(20);
         if sh.sessions && k < 5 {
             sid += 1;
@@ -91,7 +107,32 @@ pub fn gen_history(r: &mut Rng, sh: &Shape) -> Vec<Act> {
                 }
                 acts.push(Act::In(sid, format!("INSERT INTO t VALUES {}", vals.join(", ")), ins, vec![]));
             }
-            if will_rollback {
+            if sh.interleave {
+                // keep everything after Begin for later; up to three sessions open at once
+                let at = acts.iter().rposition(|a| matches!(a, Act::Begin(_))).unwrap() + 1;
+                let mut rest: Vec<Act> = acts.split_off(at);
+                rest.push(if will_rollback { Act::Rollback(sid) } else { Act::Commit(sid) });
+                if sh.name == "checkpoint-between-begin-and-write" {
+                    // one session at a time: finish the others first, then BEGIN, checkpoint, and only then the writes
+                    let begin = acts.pop().unwrap();
+                    for (rest, ids, committed) in open.drain(..) {
+                        acts.extend(rest);
+                        if committed {
+                            live.extend(ids);
+                        }
+                    }
+                    acts.push(begin);
+                    acts.push(Act::Flush);
+                }
+                open.push((rest, ins_ids, !will_rollback));
+                if open.len() > 3 {
+                    let (rest, ids, committed) = open.remove(0);
+                    acts.extend(rest);
+                    if committed {
+                        live.extend(ids);
+                    }
+                }
+            } else if will_rollback {
                 acts.push(Act::Rollback(sid));
             } else {
                 acts.push(Act::Commit(sid));
@@ -116,6 +157,12 @@ pub fn gen_history(r: &mut Rng, sh: &Shape) -> Vec<Act> {
                 next_id += 1;
             }
             acts.push(Act::Auto(format!("INSERT INTO t VALUES {}", vals.join(", ")), ins, vec![]));
+        }
+    }
+    // half of the sessions still open are finished, the others stay open at the end of the history (their rows must never appear)
+    for (rest, _, _) in open {
+        if r.chance(1, 2) {
+            acts.extend(rest);
         }
     }
     acts
@@ -414,6 +461,11 @@ pub fn enumerate(rec: &Recorded, check: &str, shape: &Shape, seed_tag: &str, nes
     let mut log_left_block0 = false;
     let mut seen_rollback = false;
     let mut seen_vacuum = false;
+    // sessions holding acknowledged, still uncommitted writes; a checkpoint taken in that state is an open finding
+    // (it writes those rows to the data file and truncates the log that could undo them)
+    let mut open_writers: std::collections::BTreeSet<usize> = Default::default();
+    let mut ckpt_with_uncommitted = false;
+    let mut open_idle: std::collections::BTreeSet<usize> = Default::default();
     let script: Vec<String> = rec.acts.iter().map(|a| a.show()).collect();
     let mut k = 0usize;
     for ev in &rec.evs {
@@ -421,19 +473,42 @@ pub fn enumerate(rec: &Recorded, check: &str, shape: &Shape, seed_tag: &str, nes
             Ev::Call(n) => {
                 inflight = Some(*n);
                 match rec.acts.get(*n) {
-                    Some(Act::Flush) => seen_ckpt = true,
+                    Some(Act::Flush) => {
+                        seen_ckpt = true;
+                        if !open_writers.is_empty() {
+                            if !ckpt_with_uncommitted {
+                                report::count("histories_with_checkpoint_over_uncommitted_writes(open finding)", 1);
+                            }
+                            ckpt_with_uncommitted = true;
+                        } else if !open_idle.is_empty() {
+                            report::count("checkpoints_with_open_idle_transaction", 1);
+                        }
+                    }
                     Some(Act::Vacuum) => {
                         seen_vacuum = true;
                         seen_ckpt = true
                     }
-                    Some(Act::Rollback(_)) => seen_rollback = true,
+                    Some(Act::Commit(s)) | Some(Act::Rollback(s)) => {
+                        open_writers.remove(s);
+                        open_idle.remove(s);
+                    }
                     _ => {}
+                }
+                if let Some(Act::Rollback(_)) = rec.acts.get(*n) {
+                    seen_rollback = true;
                 }
                 continue;
             }
             Ev::Ack(n, ok) => {
                 inflight = None;
                 if *ok {
+                    if let Some(Act::In(s, ..)) = rec.acts.get(*n) {
+                        open_writers.insert(*s);
+                        open_idle.remove(s);
+                    }
+                    if let Some(Act::Begin(s)) = rec.acts.get(*n) {
+                        open_idle.insert(*s);
+                    }
                     if *n == 0 {
                         table_created = true;
                     }
@@ -533,8 +608,9 @@ pub fn enumerate(rec: &Recorded, check: &str, shape: &Shape, seed_tag: &str, nes
                 if *c == acked || alt.as_ref().map(|a| a == c).unwrap_or(false) {
                     report::count("images_consistent", 1);
                 } else {
-                    let missing: Vec<i64> = acked.iter().filter(|(id, s)| c.get(id) != Some(s)).map(|(id, _)| *id).collect();
                     let best = alt.as_ref().unwrap_or(&acked);
+                    // a row the in-flight transaction deletes may legitimately be gone already
+                    let missing: Vec<i64> = acked.iter().filter(|(id, s)| c.get(id) != Some(s) && best.get(*id).is_some()).map(|(id, _)| *id).collect();
                     let extra_all: Vec<i64> = c.iter().filter(|(id, s)| acked.get(id) != Some(s) && best.get(id) != Some(s)).map(|(id, _)| *id).collect();
                     // a row whose DELETE was acknowledged and that is back is a lost acknowledged effect (C01), not an unacknowledged one
                     let resurrected: Vec<i64> = extra_all.iter().cloned().filter(|id| acked_deleted.contains(id)).collect();
@@ -545,7 +621,7 @@ pub fn enumerate(rec: &Recorded, check: &str, shape: &Shape, seed_tag: &str, nes
                     if !missing.is_empty() {
                         report::count("class.acked-lost", 1);
                         if check == "C01" {
-                            let sig = if shape.dirty { format!("C01:acked-lost:[shape.{}]", shape.name) } else if in_ckpt { "C01:acked-lost:crash-inside-checkpoint".to_string() } else { format!("C01:acked-lost:{}:[{}]", phase, feat) };
+                            let sig = if shape.dirty { format!("C01:acked-lost:[shape.{}]", shape.name) } else if ckpt_with_uncommitted { "C01:acked-lost:[ckpt-with-uncommitted-writes]".to_string() } else if in_ckpt { "C01:acked-lost:crash-inside-checkpoint".to_string() } else { format!("C01:acked-lost:{}:[{}]", phase, feat) };
                             report::violation(&sig, &format!("image after mutation {} ({}): {} acknowledged rows are missing (ids {:?}…); recovered {} rows, acknowledged {}", k, phase, missing.len(), &missing[..missing.len().min(5)], c.len(), acked.len()), case());
                         }
                     }
@@ -554,7 +630,7 @@ pub fn enumerate(rec: &Recorded, check: &str, shape: &Shape, seed_tag: &str, nes
                         if check == "C02" {
                             // who wrote the extra rows: rolled back, open, or partial in-flight
                             let who = extra_origin(rec, &extra, inflight);
-                            let sig = if shape.dirty { format!("C02:unacked-visible:[shape.{}]", shape.name) } else if in_ckpt { "C02:unacked-visible:crash-inside-checkpoint".to_string() } else { format!("C02:unacked-visible:{}:{}:[{}]", who, phase, feat) };
+                            let sig = if shape.dirty { format!("C02:unacked-visible:[shape.{}]", shape.name) } else if ckpt_with_uncommitted { "C02:unacked-visible:[ckpt-with-uncommitted-writes]".to_string() } else if in_ckpt { "C02:unacked-visible:crash-inside-checkpoint".to_string() } else { format!("C02:unacked-visible:{}:{}:[{}]", who, phase, feat) };
                             report::violation(&sig, &format!("image after mutation {} ({}): rows {:?}… are visible but were never acknowledged ({})", k, phase, &extra[..extra.len().min(5)], who), case());
                         }
                     }
@@ -564,13 +640,13 @@ pub fn enumerate(rec: &Recorded, check: &str, shape: &Shape, seed_tag: &str, nes
                 report::count("class.open-failed", 1);
                 if check == "C08" {
                     let what = if matches!(opened, Opened::OpenFailed(_)) { "open-failed" } else { "unreadable-after-open" };
-                    let sig = if shape.dirty { format!("C08:{}:[shape.{}]", what, shape.name) } else if in_ckpt { format!("C08:{}:crash-inside-checkpoint", what) } else { format!("C08:{}:{}:{}:[{}]", what, err_kind(e), phase, feat) };
+                    let sig = if shape.dirty { format!("C08:{}:[shape.{}]", what, shape.name) } else if ckpt_with_uncommitted { format!("C08:{}:[ckpt-with-uncommitted-writes]", what) } else if in_ckpt { format!("C08:{}:crash-inside-checkpoint", what) } else { format!("C08:{}:{}:{}:[{}]", what, err_kind(e), phase, feat) };
                     report::violation(&sig, &format!("image after mutation {} ({}): {}", k, phase, e), case());
                 }
             }
         }
         // C08 nested level: crash inside the recovery of this image, and idempotence of a second open
-        if check == "C08" && !shape.dirty && *nested_budget > 0 && matches!(opened, Opened::Contents(_)) && (k % 7 == 3) {
+        if check == "C08" && !shape.dirty && !ckpt_with_uncommitted && *nested_budget > 0 && matches!(opened, Opened::Contents(_)) && (k % 7 == 3) {
             *nested_budget -= 1;
             nested(&dir, &files, rec, &opened, phase, &feat, &case);
         }
@@ -668,13 +744,15 @@ fn summary(o: &Opened) -> String {
 
 pub fn shapes() -> Vec<Shape> {
     vec![
-        Shape { dirty: false, name: "small-autocommit", steps: 14, row_bytes: &[8, 40], sessions: false, rollback: false, deletes: true, flush: false, vacuum: false, cache: 10000 },
-        Shape { dirty: false, name: "sessions-commit", steps: 12, row_bytes: &[8, 60], sessions: true, rollback: false, deletes: true, flush: false, vacuum: false, cache: 10000 },
-        Shape { dirty: false, name: "sessions-rollback", steps: 12, row_bytes: &[8, 60], sessions: true, rollback: true, deletes: false, flush: false, vacuum: false, cache: 10000 },
-        Shape { dirty: false, name: "with-checkpoints", steps: 14, row_bytes: &[8, 60], sessions: true, rollback: false, deletes: true, flush: true, vacuum: false, cache: 10000 },
-        Shape { dirty: true, name: "long-log", steps: 60, row_bytes: &[600, 1200], sessions: false, rollback: false, deletes: false, flush: false, vacuum: false, cache: 10000 },
-        Shape { dirty: true, name: "small-cache-steal", steps: 40, row_bytes: &[300, 900], sessions: true, rollback: true, deletes: false, flush: false, vacuum: false, cache: 16 },
-        Shape { dirty: true, name: "with-vacuum", steps: 14, row_bytes: &[8, 60], sessions: true, rollback: false, deletes: true, flush: true, vacuum: true, cache: 10000 },
+        Shape { dirty: false, name: "small-autocommit", steps: 14, row_bytes: &[8, 40], sessions: false, rollback: false, deletes: true, flush: false, vacuum: false, cache: 10000, interleave: false },
+        Shape { dirty: false, name: "sessions-commit", steps: 12, row_bytes: &[8, 60], sessions: true, rollback: false, deletes: true, flush: false, vacuum: false, cache: 10000, interleave: false },
+        Shape { dirty: false, name: "sessions-rollback", steps: 12, row_bytes: &[8, 60], sessions: true, rollback: true, deletes: false, flush: false, vacuum: false, cache: 10000, interleave: false },
+        Shape { dirty: false, name: "with-checkpoints", steps: 14, row_bytes: &[8, 60], sessions: true, rollback: false, deletes: true, flush: true, vacuum: false, cache: 10000, interleave: false },
+        Shape { dirty: false, name: "interleaved-sessions", steps: 16, row_bytes: &[8, 60], sessions: true, rollback: true, deletes: true, flush: true, vacuum: false, cache: 10000, interleave: true },
+        Shape { dirty: false, name: "checkpoint-between-begin-and-write", steps: 14, row_bytes: &[8, 60], sessions: true, rollback: true, deletes: true, flush: false, vacuum: false, cache: 10000, interleave: true },
+        Shape { dirty: true, name: "long-log", steps: 60, row_bytes: &[600, 1200], sessions: false, rollback: false, deletes: false, flush: false, vacuum: false, cache: 10000, interleave: false },
+        Shape { dirty: true, name: "small-cache-steal", steps: 40, row_bytes: &[300, 900], sessions: true, rollback: true, deletes: false, flush: false, vacuum: false, cache: 16, interleave: false },
+        Shape { dirty: true, name: "with-vacuum", steps: 14, row_bytes: &[8, 60], sessions: true, rollback: false, deletes: true, flush: true, vacuum: true, cache: 10000, interleave: false },
     ]
 }
 
